@@ -100,6 +100,14 @@ func TestBoundedC11Codecs(t *testing.T) {
 		}
 		cases++
 	}
+	for _, n := range []uint64{0, 1, 255, 256, 9223372036854775807, 9223372036854775808, 18446744073709551615} {
+		b, _ := pc.Marshal(n)
+		var got uint64
+		if err := pc.Unmarshal(b, &got); err != nil || got != n {
+			t.Fatalf("REPLAYED (bounded): plain uint64 round trip %d -> %d (%v)", n, got, err)
+		}
+		cases++
+	}
 	for _, f := range []float64{0, 1.5, -2.25, 1e300, 5e-324} {
 		b, _ := pc.Marshal(f)
 		var got float64
@@ -128,6 +136,10 @@ func TestBoundedC11Codecs(t *testing.T) {
 				in.Nums = append(in.Nums, k*10-i)
 			}
 			in.Trip = [3]int{i, i + 1, i + 2}
+			if j == 2 {
+				// empty elements keep their position
+				in.Tags = []string{"", s, ""}
+			}
 			b, err := fc.Marshal(&in)
 			if err != nil {
 				t.Fatalf("form marshal: %v", err)
